@@ -41,10 +41,12 @@ impl PatchTrait for PatchArm {
             ]
         } else {
             [
-                // ldr r9, [pc, #-0] ; Load pc + 8 into r9, so the target word
-                0xE51F9000,
-                // bx r9 ; Branch to the target function
-                0xE12FFF19,
+                // ldr r12, [pc, #-0] ; Load pc + 8 into r12 (ip), so the target word.
+                // r12 is the intra-procedure-call scratch register: unlike r9 (callee-saved
+                // v6 under the Linux EABI) a callee is free to clobber it.
+                0xE51FC000,
+                // bx r12 ; Branch to the target function
+                0xE12FFF1C,
                 // .word target
                 target.as_ptr() as u32,
             ]
